@@ -241,7 +241,7 @@ def main(argv):
             cands.append((n, open(pth, "rb").read(), "corpus"))
         for g in range(ngen):
             src = progen.gen_program(vsim.Rng(seed, "c08-gen", g), size="small", force=("tokens",) if g % 2 == 0 else ())
-            cands.append(("gen%03d.as" % g, src.encode(), "generated"))
+            cands.append(("gen%03d.as" % g, src.encode("latin-1"), "generated"))
         # generated programs split over several local files (main.as includes partN.as)
         AUX = {}
         for g in range(3 if tier == "quick" else 20):
@@ -250,8 +250,8 @@ def main(argv):
             pre = "i%03d_" % g
             for k in list(parts):
                 main = main.replace('"%s"' % k, '"%s%s"' % (pre, k))
-            AUX[nm] = dict((pre + k, v.encode()) for k, v in parts.items())
-            cands.append((nm, main.encode(), "generated"))
+            AUX[nm] = dict((pre + k, v.encode("latin-1")) for k, v in parts.items())
+            cands.append((nm, main.encode("latin-1"), "generated"))
         work = []
         for name, text, origin in cands:
             o_ = gen_opts(vsim.Rng(seed, "c08-opts", name))
